@@ -433,3 +433,123 @@ def c16(run, scratch):
 
 
 REPLAYERS["MC_Signature"] = lambda run, scratch, rec: replay_cases(run, scratch, "MC_Signature", [rec["case"]], "signature")
+
+
+# ---------------------------------------------------------------------------------------------
+# C09, C11, C14, C15: cache bytes
+# ---------------------------------------------------------------------------------------------
+def cache_trace(run, scratch, name, focus, n, files, corrupt, pred, workers=10, extra=None):
+    events = harness_trace(scratch, "cache", name, ["--seed", run.seed, "--n", n, "--focus", focus,
+                                                     "--files", ",".join(files)] + (extra or []))
+    validate_pure_trace(run, scratch, name, "Trace_Cache", events, workers=workers, timeout=3000, corrupt=corrupt,
+                        canary_pred=pred, signature=lambda ev: {"event": ev.get("t"), "what": ev.get("what")})
+    return events
+
+
+def _c09_corrupt(ev):
+    # swap two bytes of the first class entry's obfuscated-name offset with garbage: unreadable string
+    b = ev["bytes"]
+    b[24] = 250
+    b[25] = 255
+    return ev
+
+
+@prop("C09")
+def c09(run, scratch):
+    t = run.tier == "thorough"
+    small = [f for f in SMALL_CORPUS if os.path.getsize(f) < 3000] if not t else SMALL_CORPUS
+    ev = cache_trace(run, scratch, "Trace_Cache_written", "written", 400 if t else 150, small, _c09_corrupt,
+                     lambda e: e["t"] == "written" and len(e["bytes"]) > 60 and e["test_ok"], workers=14 if t else 10)
+    for e in ev[-3:-1]:
+        run.sample({"mapping": b2s(e["src"])[:300], "cache_len": len(e["bytes"]), "self_test": e["test_ok"]})
+    # the model side: the decoder accepts exactly what the layout arithmetic says (MC_CacheParse)
+    r = run_tlc(scratch, "MC_CacheParse", cfg="MC_CacheParse.cfg", workers=8, timeout=900)
+    if r.violation:
+        run.violation("MC_CacheParse", {"signature": {"step": "MC_CacheParse"}, "tlc": r.violation, "output": r.out[-4000:]})
+    run.add_tlc("MC_CacheParse", r, note="layout arithmetic of the documented format: full file accepted with implied length")
+    run.exhaustive = False
+    run.assumptions += COMMON_ASSUME + ["decoder CacheFormat.tla is written from the documented format only; the index it decodes "
+                                        "is compared with Index!Blocks of the mapping as parsed by MappingSyntax"]
+
+
+def _c11_corrupt(ev):
+    ev["outcome"] = {"ok": not ev["outcome"]["ok"], "err": "WrongFormat"}
+    return ev
+
+
+@prop("C11")
+def c11(run, scratch):
+    t = run.tier == "thorough"
+    r = run_tlc(scratch, "MC_CacheParse", cfg="MC_CacheParse_thorough.cfg" if t else "MC_CacheParse.cfg",
+                workers=14 if t else 10, timeout=3000)
+    if r.violation:
+        run.violation("MC_CacheParse", {"signature": {"step": "MC_CacheParse"}, "tlc": r.violation, "output": r.out[-4000:]})
+    run.add_tlc("MC_CacheParse", r, note="every strict prefix of every file shape rejected; header edits give the stated kinds")
+    r = run_tlc(scratch, "MC_CacheIO", cfg="MC_CacheIO_general.cfg", workers=8, timeout=900)
+    if r.violation:
+        run.violation("MC_CacheIO_general", {"signature": {"step": "MC_CacheIO_general"}, "tlc": r.violation, "output": r.out[-4000:]})
+    run.add_tlc("MC_CacheIO_general", r, note="a crash at any point leaves a prefix of the canonical file")
+    ev = cache_trace(run, scratch, "Trace_Cache_parse", "parse", 120 if t else 30, SMALL_CORPUS[:1] if t else [], _c11_corrupt,
+                     lambda e: e["t"] == "parse", workers=14 if t else 10)
+    for e in [x for x in ev if x["what"] == "edit"][:2] + [x for x in ev if x["what"] == "prefix"][-1:]:
+        run.sample({"what": e["what"], "len": len(e["bytes"]), "header": e["bytes"][:24], "outcome": e["outcome"]})
+    run.exhaustive = False
+    run.assumptions += COMMON_ASSUME + ["buffers handed to parse are 8-byte aligned copies"]
+
+
+def _c14_corrupt(ev):
+    c = list(ev["copies"][-1])
+    c[-1] = (c[-1] + 1) % 256
+    ev["copies"][-1] = c
+    return ev
+
+
+@prop("C14")
+def c14(run, scratch):
+    t = run.tier == "thorough"
+    small = [f for f in SMALL_CORPUS if os.path.getsize(f) < 30000]
+    ev = cache_trace(run, scratch, "Trace_Cache_same", "same", 80 if t else 25, small if t else small[:2], _c14_corrupt,
+                     lambda e: e["t"] == "same" and len(e["copies"]) > 2 and len(e["copies"][0]) > 0,
+                     workers=14 if t else 10, extra=["--procs", 32 if t else 8])
+    if any(e["procs"] < (32 if t else 8) for e in ev):
+        raise ToolError("C14: some child processes failed to write")
+    run.sample({"copies_per_mapping": len(ev[0]["copies"]), "separately_started_processes": ev[0]["procs"],
+                "cache_len": len(ev[0]["copies"][0])})
+    r = run_tlc(scratch, "MC_CacheParse", cfg="MC_CacheParse.cfg", workers=8, timeout=900)
+    run.add_tlc("MC_CacheParse", r, note="implied length arithmetic")
+    run.exhaustive = False
+    run.assumptions += COMMON_ASSUME + ["hash seeds differ between processes (std RandomState); in-process repeats and 4 threads per mapping"]
+
+
+def _c15_corrupt(ev):
+    ev["ok"] = True
+    ev["sink"] = ev["sink"] + [1]
+    return ev
+
+
+@prop("C15")
+def c15(run, scratch):
+    t = run.tier == "thorough"
+    expect_counterexample(run, scratch, "MC_CacheIO", "MC_CacheIO_pinned.cfg", "the single unchecked padding write")
+    r = run_tlc(scratch, "MC_CacheIO", cfg="MC_CacheIO_general.cfg", workers=8, timeout=900)
+    if r.violation:
+        run.violation("MC_CacheIO_general", {"signature": {"step": "MC_CacheIO_general"}, "tlc": r.violation, "output": r.out[-4000:]})
+    run.add_tlc("MC_CacheIO_general", r, note="every sink response at every call, tiny sections: protocol invariants")
+    cases = tlc_cases(run, scratch, "MC_CacheIO_policies", "MC_CacheIO", cfg="MC_CacheIO_policies.cfg", workers=8, timeout=900)
+    if cases:
+        run.sample({"policy": cases[0]["policy"], "schedule": cases[0]["schedule"], "spec_expects": cases[0]["want"]})
+
+        def corrupt(c):
+            c["want"]["ok"] = not c["want"]["ok"]
+            return c
+        replay_cases(run, scratch, "MC_CacheIO_policies", cases, "sink", corrupt=corrupt,
+                     signature=lambda c, m: {"policy": c["policy"]["kind"]})
+    events = harness_trace(scratch, "sink", "sink", ["--seed", run.seed, "--n", 80 if t else 20])
+    validate_pure_trace(run, scratch, "Trace_CacheIO", "Trace_CacheIO", events, workers=14 if t else 10, timeout=3000,
+                        corrupt=_c15_corrupt, canary_pred=lambda e: not e["ok"],
+                        signature=lambda ev: {"ok": ev["ok"], "any_fail": ev["any_fail"]})
+    run.exhaustive = False
+    run.assumptions += COMMON_ASSUME + ["canonical serialisation = what the same build writes into a Vec"]
+
+
+REPLAYERS["MC_CacheIO_policies"] = lambda run, scratch, rec: replay_cases(run, scratch, "MC_CacheIO_policies", [rec["case"]], "sink")
